@@ -1,1 +1,2 @@
 pub mod addr;
+pub mod sighash;
